@@ -21,6 +21,7 @@ type execExtra struct {
 	pendingGuardHeaps []string
 	rangeKeys         map[*ssa.Range]string
 	havocAll          bool
+	siteBindings      map[*SiteSpec]int
 	curLoop           *ssa.BasicBlock
 	pendingParamInv   bool
 	hypMode           bool
@@ -76,6 +77,10 @@ func (e *Exec) bindSites() {
 				}
 			}
 		}
+		if e.siteBindings == nil {
+			e.siteBindings = map[*SiteSpec]int{}
+		}
+		e.siteBindings[ss] = n
 		if n == 0 && ruleSites[ss] {
 			continue // a rule simply does not apply where its target is not called
 		}
@@ -114,8 +119,20 @@ func (e *Exec) siteMatches(ss *SiteSpec, ins ssa.Instruction) bool {
 		}
 		return false
 	case "return":
-		_, ok := ins.(*ssa.Return)
-		return ok
+		// the decision point of a return is before the deferred calls run: bind to the rundefers
+		// instruction that precedes the return in its block (or to the return itself if there is none)
+		if rd, ok := ins.(*ssa.RunDefers); ok {
+			return returnAfter(rd) != nil
+		}
+		if rt, ok := ins.(*ssa.Return); ok {
+			for _, x := range rt.Block().Instrs {
+				if _, isRD := x.(*ssa.RunDefers); isRD {
+					return false
+				}
+			}
+			return true
+		}
+		return false
 	case "store":
 		st, ok := ins.(*ssa.Store)
 		if !ok {
@@ -178,6 +195,25 @@ func (e *Exec) runSiteSpecs(s *State, ins ssa.Instruction, specs []*SiteSpec, be
 		if st, ok := ins.(*ssa.Store); ok {
 			extra["stored"] = specVar{e.val(s, st.Val), st.Val.Type()}
 		}
+		if rt, ok := ins.(*ssa.Return); ok {
+			for i, r := range rt.Results {
+				extra[fmt.Sprintf("ret%d", i)] = specVar{e.val(s, r), r.Type()}
+			}
+		}
+		if rd, ok := ins.(*ssa.RunDefers); ok {
+			if rt := returnAfter(rd); rt != nil {
+				for i, r := range rt.Results {
+					// results are loaded from their cells after the deferred calls; read the cells now
+					if u, ok := r.(*ssa.UnOp); ok {
+						if a, ok := u.X.(*ssa.Alloc); ok {
+							if pv, have := e.regs[a]; have {
+								extra[fmt.Sprintf("ret%d", i)] = specVar{e.readLoc(s, e.resolve(pv, derefType(a.Type()))), r.Type()}
+							}
+						}
+					}
+				}
+			}
+		}
 		// assumptions of a site scope over that site's assertions only; a site without assertions is a
 		// persistent (trusted) assumption
 		hs := s
@@ -221,7 +257,11 @@ func (e *Exec) runSiteSpecs(s *State, ins ssa.Instruction, specs []*SiteSpec, be
 		ord := e.counters["site:"+ss.Label]
 		if e.quiet == 0 && len(ss.Assert) > 0 {
 			// vacuity guard: the site must be reachable under its own assumptions
-			e.obls = append(e.obls, &Obligation{Name: fmt.Sprintf("%s/site:%s#%d/cover", e.funcKey, ss.Label, ord), Kind: "cover", Cover: true, Pos: ins.Pos(),
+			cname := fmt.Sprintf("%s/site:%s#%d/cover", e.funcKey, ss.Label, ord)
+			if ss.Nth == 0 && e.siteBindings[ss] > 1 {
+				cname += "/hyp-cover" // one of several bindings: an unreachable one is dead code, not vacuity
+			}
+			e.obls = append(e.obls, &Obligation{Name: cname, Kind: "cover", Cover: true, Pos: ins.Pos(),
 				Goal: tTrue, Hyp: hs.pc, Func: e.funcKey, Text: "site reachable", Props: unionProps(orProps(ss.Props, e.props)), Mode: e.mode, exec: e})
 		}
 		for i, a := range ss.Assert {
@@ -529,4 +569,55 @@ func (v *Verifier) checkMapInvAliasing() []string {
 		}
 	}
 	return bad
+}
+
+// ---------- channel invariants by variable ----------
+
+func (e *Exec) chanInvsFor(chOperand ssa.Value) []*MapInv {
+	if len(e.v.db.ChanInvs) == 0 || e.fn == nil {
+		return nil
+	}
+	name := mapVarOf(chOperand)
+	if name == "" {
+		return nil
+	}
+	root := e.fn
+	for root.Parent() != nil {
+		root = root.Parent()
+	}
+	var out []*MapInv
+	for _, ci := range e.v.db.ChanInvs {
+		if ci.Var == name && root.Pkg != nil && ci.PkgPath == root.Pkg.Pkg.Path() && ci.Func == root.Name() {
+			out = append(out, ci)
+		}
+	}
+	return out
+}
+
+func (e *Exec) evalChanInv(ci *MapInv, s *State, v Value, t types.Type) *Node {
+	cc := calleeCtx{e.v.pkgByPath(ci.PkgPath)}
+	return cc.evalWith(e, ci.Clause, s, s, map[string]specVar{"v": {v, t}})
+}
+
+func (e *Exec) assumeChanInv(s *State, ch ssa.Value, v Value) {
+	et := ch.Type().Underlying().(*types.Chan).Elem()
+	for _, ci := range e.chanInvsFor(ch) {
+		s.assume(e.asHyp(func() *Node { return e.evalChanInv(ci, s, v, et) }))
+	}
+}
+
+func returnAfter(rd *ssa.RunDefers) *ssa.Return {
+	seen := false
+	for _, x := range rd.Block().Instrs {
+		if x == ssa.Instruction(rd) {
+			seen = true
+			continue
+		}
+		if seen {
+			if rt, ok := x.(*ssa.Return); ok {
+				return rt
+			}
+		}
+	}
+	return nil
 }
